@@ -452,6 +452,28 @@ def _r6(rep, src, label, full):
             rep.fail('C20.R3', h.site, what, 'reading %r gives db = %s and rdb = %s; the indexes must be %s and its inverse %s'
                      % (lines, {k: sorted(v) for k, v in (db or {}).items()}, {k: sorted(v) for k, v in (rdb or {}).items()},
                         {k: sorted(v) for k, v in want_db.items()}, {k: sorted(v) for k, v in want_rdb.items()}), where=h.where)
+    # DB.read on a collection that already holds packages (a second read, or read after inserts): whatever it keeps of the old
+    # content, the two indexes stay mutually inverse
+    rd = src.func(M + ':DB.read')
+    rep.saw_func(rd)
+    second = ['pkg-new, pkg-one: role::b, use::e\n', 'pkg-lonely\n']
+    heap, it, me = _world(src)
+    what = 'read() into a non-empty collection keeps the indexes inverse'
+    try:
+        it.call(H.Closure(rd.node, {}, me, rd.cls), [heap.new_list(list(second)), None])
+        db2, _a = _plain(heap, heap.objs[me.name]['db'])
+        rdb2, _b = _plain(heap, heap.objs[me.name]['rdb'])
+        want2 = {k: frozenset(v) for k, v in _inverse(db2 or {}).items()}
+        got2 = {k: v for k, v in (rdb2 or {}).items() if v}
+        if db2 is not None and got2 == want2:
+            rep.ok('C20.R3', rd.site, what, '%d packages, %d tags after the second read' % (len(db2), len(got2)))
+        else:
+            diff = sorted(t for t in set(want2) | set(got2) if want2.get(t) != got2.get(t))
+            rep.fail('C20.R3', rd.site, what, 'after reading a second file into a collection holding %d packages the tag index differs from the inverse of the package '
+                     'index at %s: listed %s, tagged %s' % (len(GEN), diff[:3], {t: sorted(got2.get(t, [])) for t in diff[:3]}, {t: sorted(want2.get(t, [])) for t in diff[:3]}),
+                     where=rd.where)
+    except H.Raised as x:
+        rep.fail('C20.R3', rd.site, what, 'raises %s (line %d)' % (x.exc, x.lineno), where=rd.where)
     # queries answer from the right index
     queries = {'has_package': (['pkg-two'], True), 'has_tag': (['use::c'], True), 'tags_of_package': (['pkg-three'], {'role::b', 'use::c'}),
                'packages_of_tag': (['role::b'], {'pkg-one', 'pkg-two', 'pkg-three'}), 'card': (['role::b'], 3), 'package_count': ([], len(GEN)),
